@@ -525,6 +525,14 @@ impl<'a> ArxmlParser<'a> {
                 }
                 ArxmlEvent::Characters(text_content) => {
                     if let Some(character_data_spec) = element.elemtype.chardata_spec() {
+                        if element.elemtype.content_mode() == ContentMode::Characters && !element.content.is_empty() {
+                            // the text of this element was already seen: a comment or a processing instruction splits the text into
+                            // several pieces (<SHORT-NAME>Pk<!-- -->g</SHORT-NAME>). Only one piece can be stored
+                            self.optional_error(ArxmlParserError::CharacterContentForbidden {
+                                element: element.elemname,
+                            })?;
+                            continue;
+                        }
                         let value = self.parse_character_data(text_content, character_data_spec)?;
                         if element.elemtype.is_ref() {
                             if let CharacterData::String(refpath) = &value {
